@@ -460,6 +460,23 @@ func (rs *resolver) collect(stmts []ast.Stmt, guards []wguard, out *[]wcall, bad
 			visitExprCalls(s, guards)
 		case *ast.ExprStmt:
 			visitExprCalls(s, guards)
+		case *ast.SwitchStmt:
+			// a tagless switch is an if-chain: each clause runs under its own condition (a clause after others also under
+			// their negations, which carry no nil/loop knowledge)
+			if s.Tag != nil || s.Init != nil {
+				if bad != nil {
+					*bad = append(*bad, fmt.Sprintf("statement kind %T at %s is outside the recognised idioms", st, rs.w.r.Prog.Position(st.Pos())))
+				}
+				continue
+			}
+			for _, c := range s.Body.List {
+				cc := c.(*ast.CaseClause)
+				g := wguard{kind: "other", desc: "switch clause"}
+				if len(cc.List) == 1 {
+					g = rs.guardOf(cc.List[0])
+				}
+				rs.collect(cc.Body, append(append([]wguard{}, guards...), g), out, bad)
+			}
 		case *ast.ReturnStmt, *ast.IncDecStmt, *ast.EmptyStmt:
 			visitExprCalls(s, guards)
 		default:
@@ -646,7 +663,7 @@ func runWalk(r *core.Run) {
 			arms[n.Obj().Name()] = cc
 		}
 	}
-	r.Floor("Walk arms", len(arms), 50)
+	r.Floor("Walk arms", len(arms), 40)
 
 	// R-WALK-CASES
 	var nodeTypes []*types.Named
